@@ -19,6 +19,24 @@ def harnesses(tier):
         N = (3 if fmt in (2, 3, 4) else 4) if tier == 'quick' else (4 if fmt in (2, 3, 4) else 6)
         hs.append(esccommon.escape('c04_esc', fmt, N, tier))
     hs += nesting(tier)
+    hs += latex_tt(tier)
+    return hs
+
+def lit_rules():
+    import re, vrun
+    txt = open(os.path.join(vrun.SRC, 'lexer.re')).read()
+    return [(m.group(2), m.group(3)) for m in re.finditer(r'^\s*(["\'])((?:\\.|[^"\'\\])+)\1\s*\{ return ([A-Z_0-9]+); \}', txt, re.M)]
+
+def latex_tt(tier):
+    from checks import C08
+    hs = []
+    trees = ['mmd_export_token_tree_latex', 'mmd_export_token_tree_latex_raw', 'mmd_export_token_tree_latex_tt']
+    for i, (lit, kind) in enumerate(lit_rules()):
+        hs.append(dict(name='c04_latex_tt_%02d_%s' % (i, kind.lower()), src='c04/latextt.c', defs=dict(EXPORT='mmd_export_token_latex_tt', IDX=i, TREE1=trees[0], TREE2=trees[1], TREE3=trees[2]),
+                       prepare=C08.gen_lit_table, pool_off=True,
+                       units=[dict(src='repo:latex.c', remove=trees), 'repo:token.c', 'repo:stack.c', 'repo:object_pool.c', 'repo:char.c'],
+                       nobody_ok='*', ignore_failed=['no-body'], unwind=90, timeout=300, mem_gb=4, functional=True, replay=False,
+                       desc='mmd_export_token_latex_tt, token %s with its literal text: reserved characters only escaped, decoded output == source text' % kind))
     return hs
 
 NEST_KINDS = ['BLOCK_BLOCKQUOTE', 'BLOCK_CODE_FENCED', 'BLOCK_CODE_INDENTED', 'BLOCK_DEFLIST', 'BLOCK_DEFINITION', 'BLOCK_H1', 'BLOCK_H3', 'BLOCK_H6', 'BLOCK_HR',
